@@ -6,7 +6,7 @@
                              regenerated from the source ([the_params]);
    view_outcome_p pr c r     the same for arbitrary values of the three repair parameters;
    spec_runs / spec_checked / spec_token_ok / spec_origin_ok   the declarative statement of the property. *)
-From Coq Require Import List NArith Bool.
+From Coq Require Import List NArith ZArith Bool.
 Import ListNotations.
 Require Import Verif.Lib.Wire Verif.Lib.Text Verif.Lib.Utf8 Verif.Gen.Facts_C12 Verif.Model.C12 Verif.Proofs.C12
   Verif.Proofs.C12_url Verif.Proofs.C12_seq Verif.Proofs.C12_ex.
@@ -347,3 +347,20 @@ Theorem C12_held_token_is_stable : forall pr c r st,
   token_absent (c_storage c) st = false -> snd (client_step pr c st r) = st.
 Proof. exact held_token_is_stable. Qed.
 Print Assumptions C12_held_token_is_stable.
+
+(* ================================================================== statement order *)
+(* the regenerated `order=` of set_default_csrf_options' action lies strictly before add_view's, so the
+   options are registered when any view is derived; C12_options_are_documented (hence the gate and every
+   "configured default" statement) depends on this fact *)
+Theorem C12_facts_order : (sdc_order <? view_order)%Z = true.
+Proof. exact Facts_ok_order. Qed.
+Print Assumptions C12_facts_order.
+
+Theorem C12_defaults_always_visible : forall stated_first, defaults_visible stated_first = true.
+Proof. exact defaults_always_visible. Qed.
+Print Assumptions C12_defaults_always_visible.
+
+Theorem C12_declaration_order_irrelevant : forall pr c b r,
+  view_outcome_p pr (with_defaults_first c b) r = view_outcome_p pr c r.
+Proof. exact declaration_order_irrelevant. Qed.
+Print Assumptions C12_declaration_order_irrelevant.
